@@ -106,4 +106,21 @@ the attempt and the htpasswd file (`auth_decision_depends_only_on_attempt`), als
 Excludes: a cache of accepted credentials, a counter, a "last user" field (seeded m5). -/
 theorem authorized_stores_nothing : 0 < authSchemeTypes ∧ authorizedWrites = 0 := by decide
 
+/-- every event is one of the allowed ones -/
+def within (allowed xs : List String) : Bool := xs.all allowed.contains
+
+/-- Of the request, the decision functions read the peer address and the `X-Forwarded-For` lines
+(`Target.AccessDeniedHTTP`, helpers and local aliases followed), hand it to the scheme (`Target.Authorized`), and the
+schemes read `BasicAuth()` — the first `Authorization` line — and nothing else: not the method, not the path, no
+other header. This is what entitles the model to judge a `Req` by `RemoteAddr`, `headerValues "X-Forwarded-For"` and
+`headerGet "Authorization"` alone (`auth_reads_only_authorization`, `forwarded_only_if`).
+Excludes: an exemption keyed on anything else a client controls — the method, `Origin`, a cookie, an "internal"
+header, a path suffix (seeded m11: CORS preflight requests exempted from authentication). A stream exposes such an
+exemption only if its generator happens to produce the key. -/
+theorem gate_reads_only_peer_forwarded_credentials :
+    within ["RemoteAddr", "Header.Values:X-Forwarded-For", "Header[]:X-Forwarded-For"] accessDeniedHTTPReads = true ∧
+    within ["pass:Authorized"] targetAuthorizedReads = true ∧
+    within ["BasicAuth()", "Header.Get:Authorization", "Header[]:Authorization"] schemeAuthorizedReads = true := by
+  decide
+
 end Fabio.Props.C12Facts
